@@ -21,7 +21,9 @@ EXTENDS Naturals, Sequences, FiniteSets, TLC, Json
 
 CONSTANTS MaxReq,        \* requests per behaviour (they meet the same pooled contexts and decoders)
           Pool,          \* "full" | "small": which value pool SetStruct draws from
-          WithBad        \* whether un-bindable requests are part of the behaviours
+          WithBad,       \* whether un-bindable requests are part of the behaviours
+          KeepStale      \* FALSE: the holder as documented.  TRUE (vacuity guard): a SetStruct whose slice is empty leaves the entries
+                         \* of an earlier SetStruct in place -- RoundTrip must then fail
 
 Sources   == {"query", "form", "multipart", "header", "cookie", "json", "xml", "cbor"}
 KVSources == {"query", "form", "multipart", "header", "cookie"}
@@ -107,7 +109,11 @@ SetPrior == /\ nset = 0 /\ nreq < MaxReq /\ src \in KVSources \ {"header"}      
             /\ nset' = 1 /\ hist' = Append(hist, [op |-> "set", v |-> cur'])
             /\ UNCHANGED <<src, split, nreq>>
 SetStruct == /\ nset \in {0, 1} /\ nreq < MaxReq
-             /\ \E v \in Values : holder' = Enc(v) /\ cur' = v         \* Del + Add per field: nothing of an earlier value survives
+             /\ \E v \in Values :
+                  /\ cur' = v
+                  /\ holder' = IF KeepStale /\ holder # None
+                                THEN [fl \in Fields |-> IF Enc(v)[fl] = <<>> THEN holder[fl] ELSE Enc(v)[fl]]
+                                ELSE Enc(v)                              \* Del + Add per field: nothing of an earlier value survives
              /\ nset' = 2 /\ hist' = Append(hist, [op |-> "set", v |-> cur'])
              /\ UNCHANGED <<src, split, nreq>>
 Send == /\ nset = 2
